@@ -127,6 +127,16 @@ def run(R):
                     occ = gen.render(a, S)
                     lines.append(dl + occ + dr)
                     meta.append((S, dl, dr))
+            # the same occurrence once more, but EARLIER on the line the same text sits inside a longer identifier
+            # (my_OldName OldName): the standalone occurrence at the end is still a standalone occurrence
+            shadow_at = len(lines)
+            for S in gen.STYLES14:
+                if S in FLAT or S in SPACEY:
+                    continue
+                occ = gen.render(a, S)
+                for pre in ("my_", "x-", "Pre", "v2_"):
+                    lines.append(pre + occ + " " + occ + ";")
+                    meta.append((S, "SHADOW", pre))
             tree = [{"p": "f.txt", "k": "f", "c": ("\n".join(lines) + "\n").encode(), "m": 0o644}]
             with cli.Sandbox(tree) as sb:
                 rc, o, e = sb.run(["--no-auto-init", "-y", "rename", search, replace, "--no-rename-paths"] + opts)
@@ -146,6 +156,13 @@ def run(R):
                     stats["lines"] += 1
                     R.case((search, replace, kind, tuple(chosen), S, dl, dr), nontrivial=True)
                     ctx = {"search": search, "replace": replace, "opts": opts, "style": S, "line": l0, "got": l1, "family": kind, "chosen": chosen}
+                    if dl == "SHADOW":
+                        stats["shadowed_checked"] = stats.get("shadowed_checked", 0) + 1
+                        tail_want = " " + (gen.render(b, S) if S in eff else gen.render(a, S)) + ";"
+                        if not l1.endswith(tail_want):
+                            fails.append({"why": f"the standalone {S} occurrence at the end of {l0!r} became {l1!r}: expected the line to end in "
+                                                 f"{tail_want!r} ({kind} {chosen})", "expected_tail": tail_want, **ctx})
+                        continue
                     if S in FLAT:
                         # genuinely ambiguous: whatever is chosen keeps the first-letter case; all-upper stays all upper
                         if l1 != l0:
